@@ -23,7 +23,7 @@ REPO = os.environ.get("VERIF_REPO", "/repo")
 BUILD = os.environ.get("VERIF_BUILD", os.path.join(VERIF, "build"))
 COQ = os.path.join(VERIF, "coq")
 OUT = os.path.join(VERIF, "out")          # replay files, logs (git-ignored)
-EVID = os.path.join(VERIF, "evidence")
+EVID = os.environ.get("VERIF_EVID", os.path.join(VERIF, "evidence"))
 NCPU = os.cpu_count() or 4
 
 LIB_FILES = """util ringbuffer ringbuffer_helper unix array hdb map hashtable skiplist trie
@@ -32,6 +32,9 @@ log_blackbox log_file log_syslog ipcc ipcs ipc_shm ipc_setup ipc_socket strlcpy 
 
 ASAN_FLAGS = ["-O1", "-g", "-fno-omit-frame-pointer", "-fsanitize=address,undefined",
               "-fno-sanitize-recover=all"]
+if os.environ.get("VERIF_COV"):
+    # tools/coverage.py: same builds with gcov instrumentation added (a development aid, never part of a check)
+    ASAN_FLAGS = ASAN_FLAGS + ["--coverage"]
 BASE_CPP = ["-DHAVE_CONFIG_H", "-pthread"]
 
 
@@ -223,7 +226,8 @@ def gen_consts():
                 except OSError:
                     pass
             lib = build_lib()
-            rc, out = sh(["gcc", "-O0", "-g", "-fsanitize=address,undefined", "-w"] + BASE_CPP + inc_flags() +
+            rc, out = sh(["gcc", "-O0", "-g", "-fsanitize=address,undefined", "-w"] +
+                         (["--coverage"] if os.environ.get("VERIF_COV") else []) + BASE_CPP + inc_flags() +
                          [src, lib, "-o", exe, "-ldl", "-lrt", "-lm"], timeout=300)
             if rc != 0:
                 raise BrokenInput("consts/%s.c does not compile against the current tree:\n%s" % (name, out[-3000:]))
@@ -398,6 +402,50 @@ def known_findings(pid):
         return []
     data = json.load(open(p))
     return [e for e in data.get("known", []) if e.get("property") == pid]
+
+
+# ---------------------------------------------------------------------------
+# Source fingerprints: when the code a property is anchored in differs (comments and white space aside)
+# from the text the committed models were last validated against, a quick run that found nothing goes on
+# with the thorough generator.  This can never raise an alarm by itself; it only buys search effort where
+# the tree has changed.  fingerprints.json is written by `./check --record-fingerprints` only.
+# ---------------------------------------------------------------------------
+
+def _strip_c(text):
+    text = re.sub(r"/\*.*?\*/", " ", text, flags=re.S)
+    text = re.sub(r"//[^\n]*", " ", text)
+    return re.sub(r"\s+", " ", text).strip()
+
+
+def anchored_files(pid):
+    for line in open(os.path.join(VERIF, "properties.jsonl")):
+        line = line.strip()
+        if not line:
+            continue
+        rec = json.loads(line)
+        if rec.get("id") == pid:
+            return sorted(rec.get("anchors", {}).get("files", []))
+    return []
+
+
+def source_fingerprint(pid):
+    h = hashlib.sha256()
+    for f in anchored_files(pid):
+        path = os.path.join(REPO, f)
+        h.update(f.encode() + b"\0")
+        try:
+            h.update(_strip_c(open(path, errors="replace").read()).encode())
+        except OSError:
+            h.update(b"<missing>")
+        h.update(b"\0")
+    return h.hexdigest()
+
+
+def recorded_fingerprint(pid):
+    p = os.path.join(VERIF, "fingerprints.json")
+    if not os.path.exists(p):
+        return None
+    return json.load(open(p)).get(pid)
 
 
 class Result:
